@@ -208,6 +208,40 @@ def sub_result(case):
     return "result/%s/%d_traj" % (via, len(trajs))
 
 
+def sub_result_history(case):
+    """history on one location: save A, load, save B to the same location, load -> B (path given as str / relative str / Path)"""
+    d = tempfile.mkdtemp(prefix="c06h_", dir=os.getcwd())
+    via = case["via"]
+    full = os.path.join(d, "res.zip")
+    if via == "pathlib":
+        target = pathlib.Path(full)
+    elif via == "relative":
+        target = os.path.relpath(full, os.getcwd())
+    else:
+        target = full
+    for k, rc in enumerate(case["results"]):
+        r, trajs = _mk_result(dict(rc, via="str"))
+        r.info["history_step"] = k
+        file_interface.save_res_file(target, r)
+        back = file_interface.load_res_file(target, load_trajectories=bool(case["load_trajectories"]))
+        if back.info != r.info:
+            raise Mismatch("save/load nr. %d on the same location (%s): info %r came back as %r" % (k + 1, via, r.info, back.info), observed="stale_load", fmt="result")
+        if set(back.stats) != set(r.stats) or any(not bits_equal([back.stats[x]], [r.stats[x]]) for x in r.stats):
+            raise Mismatch("save/load nr. %d on the same location (%s): statistics differ" % (k + 1, via), observed="stale_load", fmt="result")
+        if set(back.np_arrays) != set(r.np_arrays) or any(back.np_arrays[x].tobytes() != r.np_arrays[x].tobytes() for x in r.np_arrays):
+            raise Mismatch("save/load nr. %d on the same location (%s): arrays differ" % (k + 1, via), observed="stale_load", fmt="result")
+        if case["load_trajectories"] and set(back.trajectories) != set(trajs):
+            raise Mismatch("save/load nr. %d on the same location (%s): trajectories differ" % (k + 1, via), observed="stale_load", fmt="result")
+    # the same for trajectory files
+    tpath = os.path.join(d, "traj.tum")
+    tt = pathlib.Path(tpath) if via == "pathlib" else (os.path.relpath(tpath, os.getcwd()) if via == "relative" else tpath)
+    for k, tc in enumerate(case["trajs"]):
+        obj, P, Q, T = build_traj(tc, True)
+        file_interface.write_tum_trajectory_file(tt, obj)
+        _cmp_traj(obj, file_interface.read_tum_trajectory_file(tt), "TUM rewrite nr. %d (%s)" % (k + 1, via), True)
+    return "history/" + via
+
+
 def sub_bag(case):
     from rosbags.rosbag1 import Reader, Writer
     obj, P, Q, T = build_traj(case, True)
@@ -303,6 +337,9 @@ SUBS = [
     Sub("dataframe", sub_df, st_traj, 600, 20000, nontrivial=_nt),
     Sub("result", sub_result, st_res, 800, 30000, nontrivial=lambda c: any(_needs_digits(v) for v in c["stats"].values()) or bool(c["trajs"])),
     Sub("bag", sub_bag, st_bag, 200, 6000, nontrivial=_nt),
+    Sub("history", sub_result_history, st.fixed_dictionaries({
+        "results": st.lists(st_res, min_size=2, max_size=3), "via": st.sampled_from(["str", "pathlib", "relative"]), "load_trajectories": st.booleans(),
+        "trajs": st.lists(st.fixed_dictionaries(dict(_traj_fields)), min_size=2, max_size=3)}), 200, 8000, nontrivial=lambda c: True),
     Sub("bulk", sub_bulk, st_bulk, 4, 0, shards_quick=4),
     Sub("bulk_large", sub_bulk, st_bulk_thorough, 0, 48),
 ]
